@@ -3,7 +3,7 @@
    model's, the monitor cannot raise a false alarm.                               *)
 From Coq Require Import List Arith NArith Bool Lia ZifyBool.
 Import ListNotations.
-Require Import Aiuti.CaseLib Aiuti.FLock Aiuti.FLockInv Aiuti.FLockTL Aiuti.FLockFD Aiuti.FLockMutex.
+Require Import Aiuti.CaseLib Aiuti.FLock Aiuti.FLockInv Aiuti.FLockTL Aiuti.FLockFD Aiuti.FLockMutex Aiuti.FLockContract.
 Require Aiuti.Case_C02.
 Arguments upd : simpl never.
 Arguments step : simpl never.
@@ -103,8 +103,33 @@ Qed.
 
 (* ---------- the log is self-consistent ------------------------------------------------------- *)
 
-Definition nocrash (tr : list (ev * nat)) : bool :=
-  forallb (fun x => match fst x with ECrash _ => false | _ => true end) tr.
+(* the scheduled runs put every thread into process 0: a crash of process 0 kills them all (nothing is logged
+   any more: nobody steps), a crash of any other process changes nobody's status *)
+Definition AllP0 (s : state) : Prop := forall t, t_proc (thr s t) = 0.
+
+Lemma AllP0_apply s e : AllP0 s -> AllP0 (apply s e).
+Proof.
+  intros H t. destruct e as [t'|n|p]; cbn; auto. destruct (step_procs s t') as [_ E]. rewrite E. apply H.
+Qed.
+
+Lemma dead0_apply s e : dead s 0 = true -> dead (apply s e) 0 = true.
+Proof.
+  intros H. destruct e as [t'|n|p]; cbn; auto.
+  - destruct (step_Upd s t') as [o0 U]. rewrite (u_dead _ _ _ _ U). exact H.
+  - unfold upd. destruct (Nat.eqb 0 p); auto.
+Qed.
+
+Lemma dead_log_empty nT : forall tr s, AllP0 s -> dead s 0 = true -> snd (replay nT s tr) = [].
+Proof.
+  induction tr as [|[e code] rest IH]; intros s HP HD; [reflexivity|]. cbn [replay].
+  specialize (IH (apply s e) (AllP0_apply s e HP) (dead0_apply s e HD)).
+  destruct (replay nT (apply s e) rest) as [[g s2] oc]. cbn [snd] in *. subst oc. rewrite app_nil_r.
+  destruct e as [t|n|p]; auto.
+  assert (A : inside_b s t = false) by (unfold inside_b, is_dead; rewrite HP, HD; reflexivity).
+  assert (B : inside_b (apply s (EStep t)) t = false).
+  { unfold inside_b, is_dead. rewrite (AllP0_apply s (EStep t) HP), (dead0_apply s (EStep t) HD). reflexivity. }
+  rewrite A, B. reflexivity.
+Qed.
 
 (* cur = the threads (below nT) that are inside in s *)
 Definition tracks (nT : nat) (cur : list nat) (s : state) : Prop :=
@@ -133,11 +158,11 @@ Proof.
 Qed.
 
 Lemma consistent_complete nT : forall tr s cur,
-  Inv s -> quiet_beyond nT s -> viol (run s (map fst tr)) = false -> nocrash tr = true ->
+  Inv s -> quiet_beyond nT s -> viol (run s (map fst tr)) = false -> AllP0 s ->
   tracks nT cur s -> occ_consistent cur (snd (replay nT s tr)) = true.
 Proof.
-  induction tr as [|[e code] rest IH]; intros s cur HI HQ Hv Hnc HT; [reflexivity|].
-  cbn [replay map fst nocrash forallb] in *. apply andb_prop in Hnc. destruct Hnc as [Hnc1 Hnc].
+  induction tr as [|[e code] rest IH]; intros s cur HI HQ Hv HP HT; [reflexivity|].
+  cbn [replay map fst] in *. pose proof (AllP0_apply s e HP) as HP'.
   change (run s (e :: map fst rest)) with (run (apply s e) (map fst rest)) in Hv.
   assert (Hv' : viol (apply s e) = false).
   { destruct (viol (apply s e)) eqn:E; auto. rewrite (viol_run_mono _ _ E) in Hv. discriminate. }
@@ -150,7 +175,12 @@ Proof.
   { intros E. split; auto. intros t. rewrite E. apply HT. }
   specialize (IH (apply s e)).
   destruct (replay nT (apply s e) rest) as [[g s2] oc] eqn:Erp. cbv beta iota zeta delta [fst snd] in *.
-  destruct e as [t|n|p]; [|apply (IH cur); auto; apply Keep; reflexivity|discriminate].
+  destruct e as [t|n|p]; [|apply (IH cur); auto; apply Keep; reflexivity|].
+  2:{ (* a crash *)
+      destruct p as [|p'].
+      - pose proof (dead_log_empty nT rest (apply s (ECrash 0)) HP') as E0. rewrite Erp in E0. cbn [snd] in E0.
+        rewrite E0 by (cbn; unfold upd; reflexivity). reflexivity.
+      - apply (IH cur); auto. apply Keep. intros t. unfold inside_b, is_dead. cbn. rewrite HP. unfold upd. reflexivity. }
   cbn [apply] in *.
   assert (Oth : forall t', t' <> t -> inside_b (step s t) t' = inside_b s t') by (intros; now apply inside_other).
   destruct (inside_b s t) eqn:Ein, (inside_b (step s t) t) eqn:Ein'; cbn [app].
@@ -194,12 +224,15 @@ Proof.
   - apply (IH cur); auto. apply Keep. intros t'. destruct (Nat.eq_dec t' t) as [->|Hn]; [congruence|auto].
 Qed.
 
+Lemma thr0_proc l : forall t, t_proc (nth_fun (map (thr0 0) l) (thr0 0 []) t) = 0.
+Proof. induction l as [|x r IH]; intros [|t']; cbn; auto. Qed.
+
 (* in the shape of Case_C02.ok on the model's own trace *)
 Theorem occupancy_monitor_accepts_model :
   forall cfg fl progs trace,
     let nT := length progs in
     let '(g, s, oc) := replay nT (init_sched cfg fl progs) trace in
-    viol s = false -> nocrash trace = true ->
+    viol s = false ->
     occ_ok oc = true.
 Proof.
   intros cfg fl progs trace nT.
@@ -214,7 +247,9 @@ Proof.
   pose proof (consistent_complete nT trace (init_sched cfg fl progs) []) as H2.
   pose proof (replay_state nT trace (init_sched cfg fl progs)) as E.
   destruct (replay nT (init_sched cfg fl progs) trace) as [[g s] oc]. cbn in *. subst s.
-  intros Hv Hnc.
+  intros Hv.
+  assert (HP : AllP0 (init_sched cfg fl progs)).
+  { intros t. unfold init_sched, init. cbn [thr]. apply thr0_proc. }
   assert (HI : Inv (init_sched cfg fl progs)).
   { unfold init_sched.
     replace (init (map (fun c => obj0 0 (fst c) (snd c)) cfg) (map (thr0 0) progs) fl)
@@ -231,12 +266,12 @@ Qed.
 Theorem monitor_complete_lemma :
   forall cfg fl progs trace r0 o0 f0 e0 k0,
     let '(g, rs, oc, fin, ec, vi) := model_trace (CSched cfg fl progs trace r0 o0 f0 e0 k0) in
-    vi = false -> nocrash trace = true -> ok (CSched cfg fl progs trace rs oc fin ec 0) = true.
+    vi = false -> ok (CSched cfg fl progs trace rs oc fin ec 0) = true.
 Proof.
   intros cfg fl progs trace r0 o0 f0 e0 k0. unfold ok, model_trace.
   pose proof (occupancy_monitor_accepts_model cfg fl progs trace) as H. cbv zeta in H.
   destruct (replay (length progs) (init_sched cfg fl progs) trace) as [[g s] oc].
-  intros Hv Hnc. rewrite Hv. cbn [orb]. rewrite andb_true_r. apply H; auto.
+  intros Hv. rewrite Hv. cbn [orb]. rewrite andb_true_r. apply H; auto.
 Qed.
 
 (* ---------- model-free soundness: what an accepted occupancy log means ---------------------------- *)
